@@ -304,8 +304,18 @@ ChoicePairs(f) ==
          \cup UNION {{V("1." \o ch.l \o " & " \o ToString(k) \o "." \o lv.l, ch.s \o TypRange(cs, 2, k - 1) \o lv.s \o TypSeq(cs, k + 1)) :
                         lv \in LineVars(cs[k])} : k \in 2..Len(cs)}
           : ch \in Choice(cs[1])}
+\* ... and with a first text line that no heuristic can take for an identifier (letters and a blank: a name).  These
+\* carry their parts, so that the component check sees where the line was filed.
+PlainName == <<"J", "O", "H", "N", " ", "D", "O", "E">>
+NamePairs(f) ==
+  LET cs == f.fmt IN
+    IF Len(cs) >= 2 /\ cs[2].k = "lines" /\ cs[2].cls # "single" /\ cs[2].max >= 2 /\ Len(cs[2].body) = 1 /\ cs[2].body[1].k = "cls"
+       /\ cs[2].body[1].cls = "x"
+    THEN {VP("1." \o ch.l \o " & 2.plainname", ch.s \o PlainName \o <<"\n">> \o TypSeq(cs[2].body, 1) \o TypSeq(cs, 3),
+             <<ch.s, PlainName \o <<"\n">> \o TypSeq(cs[2].body, 1)>> \o [j \in 1..(Len(cs) - 2) |-> Typ(cs[j + 2])]) : ch \in Choice(cs[1])}
+    ELSE {}
 
-Contents(f) == GenSeq(f.fmt, 1, Budget) \cup NoParts(Trailing(TypSeq(f.fmt, 1))) \cup NoParts(ChoicePairs(f))
+Contents(f) == GenSeq(f.fmt, 1, Budget) \cup NoParts(Trailing(TypSeq(f.fmt, 1))) \cup NoParts(ChoicePairs(f)) \cup NamePairs(f)
 
 (* -------------------------------- formats -------------------------------- *)
 \* party identifier as every field documents it: [/1!a][/34x].  (The helper field_utils::parse_party_identifier also
